@@ -92,6 +92,35 @@ theorem connect311_empty_client_id_is_clean (e : Engine) (c : Connect) (hv : e.c
   rw [h2, hv, hcid]
   rfl
 
+/-- **In MQTT 3.1.1 mode a CONNECT with a password and no user name never passes last-chance validation**
+    ([MQTT-3.1.2-22]; MQTT 5 allows it). -/
+theorem connect311_password_without_username_is_refused (e4 : Engine) (c : Connect) (r : Resolution)
+    (hv : e4.cfg.version = .v311) (hp : c.password.isSome = true) (hu : c.username = none) :
+    ∃ x, e4.lastChance (.connect c) r = .error x := by
+  unfold Engine.lastChance
+  split
+  · exact ⟨_, rfl⟩
+  · simp [validateForVersion, hv, hp, hu, okIf]
+    exact ⟨_, rfl⟩
+
+/-- **A CONNECT that fails last-chance validation fails the connection attempt**: the service call returns an error (the
+    engine halts), instead of leaving a handshake without a CONNECT in which an unsolicited CONNACK would be taken for the
+    answer. -/
+theorem rejected_connect_fails_the_attempt (e4 : Engine) (id : Nat) (r : Resolution) (x : VErr)
+    (hc : isConnectOp e4 id = true) : ∃ e5 k, e4.rejectCurrent id r x = .ret e5 (.err k) ∨ ∃ s, e4.rejectCurrent id r x = .ret e5 (.panic s) := by
+  unfold Engine.rejectCurrent
+  simp only []
+  generalize ({ (if r.alias.isSome = true then ({ e4 with outRes := e4.outRes.reset ((e4.settings.map (·.topicAliasMaximum)).getD 0) } : Engine) else e4) with current := none } : Engine).completeFailure id x.name = z
+  obtain ⟨e5, r5⟩ := z
+  simp only []
+  split
+  · rename_i hnok
+    cases r5 with
+    | ok => exact absurd hnok (by decide)
+    | err k => exact ⟨e5, k, .inl rfl⟩
+    | panic s => exact ⟨e5, "", .inr ⟨s, rfl⟩⟩
+  · exact ⟨e5, _, .inl rfl⟩
+
 /-- **Nothing but the high-priority queue is served before CONNACK**: in the handshake the queue service never
     takes from the user or resubmit queue. -/
 theorem handshake_sends_only_high_priority (e : Engine) (hq : e.highQ = []) : (e.dequeue false).2 = none := by
